@@ -66,6 +66,62 @@ pub fn trigger_holds(trigger: &str, sc: &Scenario) -> bool {
             }),
             _ => false,
         }),
+        "consumer_replica_without_producer" => {
+            // renoir semantics: the block after replication(r) has exactly requirement r; the
+            // producer's requirement is tracked along the top-level plan
+            let mut repl: Vec<Repl> = vec![];
+            let mut bad = false;
+            for st in &sc.steps {
+                match st {
+                    Step::Source(i) => repl.push(match &sc.sources[*i] {
+                        Src::Iter(_) | Src::Channel(_) => Repl::One,
+                        Src::Scripted(_, r) => *r,
+                        _ => Repl::Unlimited,
+                    }),
+                    Step::Un(i, op) => {
+                        let from = repl.get(*i).copied().unwrap_or(Repl::Unlimited);
+                        let r = match op {
+                            UnOp::Repl(r) => {
+                                let (ps, cs) = (from.shape(&sc.layout), r.shape(&sc.layout));
+                                if cs.len() > 1 && !cs.is_subset(&ps) {
+                                    bad = true;
+                                }
+                                *r
+                            }
+                            UnOp::Shuffle | UnOp::Gb(..) | UnOp::Broadcast | UnOp::Win(..) => Repl::Unlimited,
+                            UnOp::Gl(..) | UnOp::WinAll(..) => Repl::One,
+                            _ => from,
+                        };
+                        repl.push(r);
+                    }
+                    Step::Bin(a, _, op) => repl.push(match op {
+                        BinOp::Zip | BinOp::IntervalJoin { keyed: false, .. } => Repl::One,
+                        BinOp::Join(_, JoinForm::BcastHash) | BinOp::Join(_, JoinForm::BcastSortMerge) => repl.get(*a).copied().unwrap_or(Repl::Unlimited),
+                        _ => Repl::Unlimited,
+                    }),
+                    Step::Split(i, n) => {
+                        let r = repl.get(*i).copied().unwrap_or(Repl::Unlimited);
+                        for _ in 0..*n {
+                            repl.push(r);
+                        }
+                    }
+                    Step::Route(i, p) => {
+                        let r = repl.get(*i).copied().unwrap_or(Repl::Unlimited);
+                        for _ in 0..p.len() {
+                            repl.push(r);
+                        }
+                    }
+                    Step::Loop(_, l) => {
+                        repl.push(Repl::One);
+                        if l.iterate {
+                            repl.push(Repl::Unlimited);
+                        }
+                    }
+                    Step::Sink(..) => {}
+                }
+            }
+            bad
+        }
         "forward_to_fewer_consumers" => any_step(&sc.steps, &|s| {
             matches!(s, Step::Un(_, UnOp::Repl(Repl::Limited(_))) | Step::Un(_, UnOp::Repl(Repl::Host)))
         }),
